@@ -2,6 +2,7 @@ import Heph.Proofs.ClosedSound
 import Heph.Proofs.ClosedPool
 import Heph.Proofs.ClosedAssignable
 import Heph.Generated.Keywords
+import Heph.Model.Reserved
 /-!
 # C05 — generated programs are closed and respect scoping and mutability rules  (*partial*)
 
@@ -146,11 +147,6 @@ def identifier_not_reserved (fixed : Bool) : Prop :=
   ∀ ws, WordFileFacts ws → ∀ pool, (∀ w ∈ pool, w ∈ ws) → ∀ l ∈ languages,
     ∀ w ∈ removeReservedVariant fixed pool (keywordsOf l), ∀ m, genIdentifier m w ∉ keywordsOf l
 
-/-- the decidable check on the regenerated tables: the colliding words that survive the removal yield no keyword -/
-def tableClean (fixed : Bool) : Bool :=
-  languages.all fun l => (removeReservedVariant fixed collisionWords (keywordsOf l)).all fun w =>
-    Mode.all.all fun m => !(keywordsOf l).contains (genIdentifier m w)
-
 theorem mem_variant_iff {b : Bool} {pool kw : List String} {w : String} :
     w ∈ removeReservedVariant b pool kw ↔ w ∈ pool ∧ w ∈ removeReservedVariant b [w] kw := by
   cases b <;> simp [removeReservedVariant, removeReserved, removeReservedFixed, List.mem_filter]
@@ -186,11 +182,6 @@ theorem identifier_not_reserved_counterexample : ¬ identifier_not_reserved fals
   intro h
   have := h collisionWords collisionWords_facts ["math"] (by decide) "groovy" (by decide) "math" (by decide) .capitalize
   exact this (by decide)
-
-/-- every (language, word, mode) at which the code as it is yields a reserved word, from the regenerated tables -/
-def reservedCollisions (fixed : Bool) : List (String × String × String) :=
-  languages.flatMap fun l => (removeReservedVariant fixed collisionWords (keywordsOf l)).flatMap fun w =>
-    (Mode.all.filter fun m => (keywordsOf l).contains (genIdentifier m w)).map fun m => (l, w, genIdentifier m w)
 
 /-- exactly four: Groovy class names `Date`, `Exception`, `Math`, `Set` (DESIGN section 6, finding 4) -/
 theorem reserved_collisions_current : reservedCollisions false =
